@@ -133,3 +133,54 @@ def compare(ctx, I, res):
             sc = np.maximum(np.abs(ref), 1e-3 * lower)
             worst = float(np.max(np.abs(lib - ref) / sc))
             ctx.check(name + "-mpref", I.name, worst, TOL_DERIV, sig="differs-from-mp.diff-of-documented-map", detail={"args": {k: (None if v is None else float(v)) for k, v in I.args.items()}, "x": [float(v) for v in x]})
+
+
+# ---------------------------------------------------------------------------------------------- used by the C04 monitor
+_KIND = {"BeckeRTransform": "Becke", "LinearFiniteRTransform": "LinearFinite", "IdentityRTransform": "Identity", "LinearInfiniteRTransform": "LinearInfinite", "ExpRTransform": "Exp", "PowerRTransform": "Power", "HyperbolicRTransform": "Hyperbolic", "MultiExpRTransform": "MultiExp", "KnowlesRTransform": "Knowles", "HandyRTransform": "Handy", "HandyModRTransform": "HandyMod"}
+
+
+def args_from_object(tf):
+    """(kind, constructor arguments, b) read from the PUBLIC properties of a closed-form transform object; None for others."""
+    kind = _KIND.get(type(tf).__name__)
+    if kind is None:
+        return None
+    a = {}
+    for name in ("rmin", "rmax", "R", "k", "m", "a"):
+        if hasattr(tf, name):
+            a[name] = float(getattr(tf, name))
+    b = getattr(tf, "b", None)
+    if kind == "Hyperbolic":
+        a["b"] = float(b)
+    if kind in ("LinearInfinite", "Exp", "Power") and b is None:
+        return None
+    return kind, a, (None if b is None else float(b))
+
+
+def mp_jacobian(tf, x, r_impl):
+    """Secondary |J| oracle for the C04 monitor: d/dx of the DOCUMENTED map (mp.diff, 40 digits) at the nodes x, provided the
+    implemented map agrees with the documented one at those nodes (|r_impl - r_doc| <= 1e-12 (|r_doc| + scale)); returns
+    (J, ok) with ok False where there is no reference (other class, b not set, model mismatch, non-finite)."""
+    n = len(x)
+    J = np.full(n, np.nan)
+    ok = np.zeros(n, dtype=bool)
+    got = args_from_object(tf)
+    if got is None:
+        return J, ok
+    kind, a, b = got
+    # 150 digits: next to x = -1 the documented Knowles map is log(1 - t) with t = ((1+x)/2)^k down to 1e-77 (TanhSinh nodes)
+    with mp.workdps(150):
+        f = ref_map(kind, a, b=b)
+        rs = []
+        for i in range(n):
+            try:
+                xm = mp.mpf(float(x[i]))
+                rm = f(xm)
+                rs.append(float(rm))
+                J[i] = float(mp.diff(f, xm, 1))
+            except Exception:  # noqa: BLE001 - pole / log of zero at a singular end: no reference there
+                rs.append(np.nan)
+        rs = np.array(rs)
+        with np.errstate(all="ignore"):
+            scale = np.nanmax(np.abs(rs)) if np.any(np.isfinite(rs)) else 1.0
+            ok = np.isfinite(J) & np.isfinite(rs) & (np.abs(np.asarray(r_impl, dtype=float) - rs) <= 1e-12 * (np.abs(rs) + 1e-3 * scale))
+    return J, ok
